@@ -50,6 +50,12 @@ def load_known():
 
 def _child(conn, args):
     try:
+        os.setpgrp()                     # own process group: the parent kills the whole group (discharge children included)
+        import ctypes
+        ctypes.CDLL(None).prctl(1, int(signal.SIGKILL))   # PR_SET_PDEATHSIG: die with the driver
+    except Exception:
+        pass
+    try:
         conn.send(_run(args))
     except BaseException as ex:          # noqa: report instead of dying silently
         try:
@@ -58,6 +64,17 @@ def _child(conn, args):
             pass
     finally:
         conn.close()
+
+
+def _kill_group(pr):
+    try:
+        os.killpg(pr.pid, signal.SIGKILL)
+    except (OSError, TypeError):
+        pass
+    try:
+        pr.kill()
+    except Exception:
+        pass
 
 
 def run_jobs(jobs, nproc, packs, verbose=None):
@@ -88,7 +105,7 @@ def run_jobs(jobs, nproc, packs, verbose=None):
             elif not pr.is_alive():
                 r = {"__crash__": "worker died without a result (exit code %s)" % pr.exitcode}
             elif time.time() - t0 > hard:
-                pr.kill()
+                _kill_group(pr)
                 r = {"__crash__": "HARD TIMEOUT after %ds (worker killed)" % int(hard)}
             if r is not None:
                 if "__crash__" in r:
@@ -102,6 +119,7 @@ def run_jobs(jobs, nproc, packs, verbose=None):
         for k in done:
             pr, pc = running[k][0], running[k][1]
             pr.join(5)
+            _kill_group(pr)               # nothing the worker forked may outlive it
             pc.close()
             del running[k]
         if not done:
